@@ -2,8 +2,8 @@
    Proofs/LatticeSound.v proves soundness of assignability for values that contain no type (wf_val); the instances
    of Type[T] are types, and `inst (TType t) (VType u) = asg t u`, so the Type[T] case IS transitivity of
    assignability (Proofs/LatticeTrans.v).  The section below is the proof of LatticeSound.v with the value side
-   condition `wf_val` replaced by `wf_valt` (hash keys pairwise different; a type used as a value is well-formed,
-   Unit-free and has no negative collection size maximum) and the Type[T] case closed by asg_trans; it lives in a
+   condition `wf_val` replaced by `wf_valt` (hash keys pairwise different; a type used as a value is well-formed
+   and Unit-free) and the Type[T] case closed by asg_trans; it lives in a
    module of its own so that no name of LatticeSound.v is shadowed. *)
 From Coq Require Import ZArith NArith Bool List Lia.
 From PcoreV Require Import Model.Base Model.Ty Model.Lattice Proofs.LatticeUnfold Proofs.LatticeBasics Proofs.StructCount
@@ -12,13 +12,13 @@ Import ListNotations.
 Open Scope Z_scope.
 
 (* values: hash keys are pairwise different strings where they are strings (C09's invariant); a type that occurs
-   as a value satisfies the side conditions of the rightmost type of asg_trans *)
+   as a value satisfies the side conditions of asg_trans *)
 Fixpoint wf_valt (v : value) : bool :=
   match v with
   | VArr vs => forallb wf_valt vs
   | VHash es => distinct_keys (map fst es) && forallb (fun e => wf_valt (fst e) && wf_valt (snd e)) es
   | VSensitive x => wf_valt x
-  | VType u => wf_ty u && no_unit u && sz_nonneg u
+  | VType u => wf_ty u && no_unit u
   | _ => true
   end.
 
@@ -275,12 +275,12 @@ Section Sound.
       apply andb_true_iff in Hr; destruct Hr as [Hsz Hr]; apply andb_true_iff in Hi; destruct Hi as [Hisz Hi];
       rewrite (in_size_sub _ _ _ _ _ Hsz Hisz); cbn [andb]; apply orb_true_iff; right; apply forallb_forall; intros v Hv;
       pose proof (wf_valt_arr _ _ Hx Hv) as Hwv.
-    - (* Array *) apply orb_true_iff in Hr. destruct Hr as [Hr|Hr]; [rewrite (in_size_eq0 _ _ _ Hisz Hr) in Hv; destruct Hv|].
+    - (* Array *) apply orb_true_iff in Hr. destruct Hr as [Hr|Hr]; [rewrite (in_size_hi0 _ _ _ Hisz Hr) in Hv; destruct Hv|].
       assert (Hs : sub e b) by (apply IHe; [assumption|split; assumption|assumption]).
       apply Hs; [assumption|]. apply orb_true_iff in Hi. destruct Hi as [Hi|Hi].
       + apply is_any_eq in Hi. subst. reflexivity.
       + rewrite forallb_forall in Hi. auto.
-    - (* Tuple *) apply orb_true_iff in Hr. destruct Hr as [Hr|Hr]; [rewrite (in_size_eq0 _ _ _ Hisz Hr) in Hv; destruct Hv|].
+    - (* Tuple *) apply orb_true_iff in Hr. destruct Hr as [Hr|Hr]; [rewrite (in_size_hi0 _ _ _ Hisz Hr) in Hv; destruct Hv|].
       change (walk ts vs = true) in Hi. destruct ts as [|t0 ts].
       + assert (Hs : sub e TAny) by (apply IHe; [assumption|apply good_any|assumption]). apply Hs; auto.
       + destruct (walk_in (t0 :: ts) ltac:(congruence) vs Hi v Hv) as (t & Ht & Hit).
@@ -323,8 +323,8 @@ Section Sound.
   Lemma recv_type t : good (TType t) -> forall b, good b -> recv (TType t) b = true -> sub (TType t) b.
   Proof.
     intros [Hwa Hna] b [Hwb Hnb] Hr x Hx Hi. destruct b; try (cbn in Hr; discriminate). destruct x; try (cbn in Hi; discriminate).
-    cbn in Hr, Hi, Hwa, Hna, Hwb, Hnb, Hx |- *. apply andb_true_iff in Hx. destruct Hx as [Hx Hsz]. apply andb_true_iff in Hx. destruct Hx as [Hwu Hnu].
-    exact (asg_trans rx t b t0 Hwa Hwb Hwu Hna Hnb Hnu Hsz Hr Hi).
+    cbn in Hr, Hi, Hwa, Hna, Hwb, Hnb, Hx |- *. apply andb_true_iff in Hx. destruct Hx as [Hwu Hnu].
+    exact (asg_trans rx t b t0 Hwa Hwb Hwu Hna Hnb Hnu Hr Hi).
   Qed.
 
   Lemma recv_sensitive t : IH t -> good (TSensitive t) ->
@@ -439,7 +439,7 @@ Section Sound.
       apply andb_true_iff in Hr. destruct Hr as [Hsz Hr].
       apply andb_true_iff in Hwb. destruct Hwb as [Hwb1 Hwb2]. apply andb_true_iff in Hnb. destruct Hnb as [Hnb1 Hnb2].
       apply andb_true_iff in Hi. destruct Hi as [Hisz Hi]. rewrite (in_size_sub _ _ _ _ _ Hsz Hisz). cbn [andb].
-      apply orb_true_iff in Hr. destruct Hr as [Hr|Hr]; [rewrite (in_size_eq0 _ _ _ Hisz Hr); reflexivity|].
+      apply orb_true_iff in Hr. destruct Hr as [Hr|Hr]; [rewrite (in_size_hi0 _ _ _ Hisz Hr); reflexivity|].
       apply andb_true_iff in Hr. destruct Hr as [Hk Hv].
       rewrite forallb_forall in Hi |- *. intros [k0 x0] Hin. specialize (Hi _ Hin). cbn [fst snd] in *.
       apply andb_true_iff in Hi. destruct Hi as [Hik Hix]. destruct (wf_valt_hash _ _ _ Hx Hin) as [Hwk0 Hwx0].
@@ -509,13 +509,13 @@ Section Sound.
       cbn in Hr, Hwb, Hnb; cbn [Lattice.inst] in *;
       apply andb_true_iff in Hr; destruct Hr as [Hsz Hr]; apply andb_true_iff in Hi; destruct Hi as [Hisz Hi];
       rewrite (in_size_sub _ _ _ _ _ Hsz Hisz); cbn [andb]; change (walk ts vs = true).
-    - (* Array *) apply orb_true_iff in Hr. destruct Hr as [Hr|Hr]; [rewrite (in_size_eq0 _ _ _ Hisz Hr); apply walk_nil_r|].
+    - (* Array *) apply orb_true_iff in Hr. destruct Hr as [Hr|Hr]; [rewrite (in_size_hi0 _ _ _ Hisz Hr); apply walk_nil_r|].
       apply walk_all. intros t v Ht Hv. rewrite forallb_forall in Hr.
       apply (Hsub t b Ht (conj Hwb Hnb) (Hr t Ht)); [apply (wf_valt_arr _ _ Hx Hv)|].
       apply orb_true_iff in Hi. destruct Hi as [Hi|Hi]; [apply is_any_eq in Hi; subst; reflexivity|].
       rewrite forallb_forall in Hi. auto.
     - (* Tuple *) change (walk ts0 vs = true) in Hi. destruct ts as [|t0 ts]; [reflexivity|].
-      apply orb_true_iff in Hr. destruct Hr as [Hr|Hr]; [rewrite (in_size_eq0 _ _ _ Hisz Hr); apply walk_nil_r|].
+      apply orb_true_iff in Hr. destruct Hr as [Hr|Hr]; [rewrite (in_size_hi0 _ _ _ Hisz Hr); apply walk_nil_r|].
       destruct ts0 as [|o0 os].
       + (* a tuple type without slots: every slot of the receiver accepts Any *)
         apply walk_all. intros t v Ht Hv. rewrite forallb_forall in Hr.
